@@ -531,6 +531,15 @@ def _s_decode(ctx, S):
                 fo = field_of(Rd(t))
                 if fo:
                     present.add(fo[1])
+        # what every decoded credential is guaranteed to carry (the check-never-raises rules of checkPassword/checkHash build on it):
+        # fields proven present, and the (defaulted, lower-cased) algorithm proven to be a key of _digest.algorithms
+        algo_checked = None
+        for t, lab in edge_asserts(gd, x):
+            ai = asserted_in(Rd(t), lab)
+            if ai and isinstance(ai[1], ast.Name) and ai[1].id == "algorithms" and authdict:
+                algo_checked = src(ai[0]).replace(authdict, "FIELDS")
+        S.__dict__.setdefault("decode_present", []).append(set(present))
+        S.__dict__.setdefault("decode_algorithm", []).append(algo_checked)
         for fld in ("username", "opaque", "nonce"):
             ctx.check(fld in present, "decode/requires-field", ctx.construct(qd, f"field {fld!r}"),
                       f"decode() returns credentials for a response without a (non-empty) {fld!r} field")
@@ -588,7 +597,11 @@ def _s_response(ctx, S):
     # ================= checkPassword / checkHash =======================================================
     dmod = ctx.mod(DIGEST)
     callees = {n: ctx.func(DIGEST, n) for n in ("calcHA1", "calcHA2", "calcResponse")}
-    decode_guaranteed = {"username", "opaque", "nonce"}
+    # fields every decoded credential carries: proven in decode() on every returning path (fallback when decode was unreadable: the three it must require)
+    decode_guaranteed = set.intersection(*S.decode_present) if S.decode_present else {"username", "opaque", "nonce"}
+    imported = any(isinstance(n, ast.ImportFrom) and (n.module or "").endswith("_digest") and any((a.asname or a.name) == "algorithms" and a.name == "algorithms" for a in n.names)
+                   for n in ast.walk(ctx.mod(CRED).tree))
+    decode_algos = set(S.decode_algorithm or [None]) if imported else {None}
 
     def F(name):
         return f"self.fields.get('{name}')"
@@ -672,6 +685,8 @@ def _s_response(ctx, S):
             mem = any((asserted_in(t, lab) is not None) and "algorithm" in rsrc(asserted_in(t, lab)[0], fm)
                       for x in gm.ids_of(r) for t, lab in edge_asserts(gm, x))
             caught = catching_handler(r, fm, "KeyError") is not None
+            # ... or decode() has already refused every response whose (identically defaulted and lower-cased) algorithm is not a key of the table
+            mem = mem or (None not in decode_algos and decode_algos == {ALGO.replace("self.fields", "FIELDS")})
             ctx.check(not algo_sites or mem or caught, "check-never-raises/unknown-algorithm", ctx.construct(qm, "algorithm lookup"),
                       f"a response with algorithm=<unknown> makes {meth} raise KeyError instead of failing the login ({'; '.join(algo_sites[:2])})")
             ctx.check(not none_sites, "check-never-raises/missing-field-hashed", ctx.construct(qm, "optional field fed to hash"),
@@ -1033,6 +1048,12 @@ MUTANTS = [
            more=[(_V, "import base64\n", "import base64\nimport math\n")], expect_rule="lifetime/"),
     Mutant("age-computed-from-rounded-down-clock-minus-one", _V, "            int(self._getTime()) - when\n            > DigestCredentialFactory", "            int(self._getTime() - 0.5) - when\n            > DigestCredentialFactory",
            expect_rule="lifetime/accepted-instants-equal-spec"),
+    # reverts of the repairs prepared in /verif/fixes/F48c and F48d (not applicable until those fix: commits are in /repo)
+    Mutant("revert-F48c-unsupported-algorithm", _V,
+           "        # The response can only be checked with an algorithm we know\n        if auth.get(\"algorithm\", b\"md5\").lower() not in algorithms:\n            raise error.LoginFailed(\"Invalid response, unsupported algorithm.\")\n\n",
+           "", expect_rule="check-never-raises/unknown-algorithm"),
+    Mutant("revert-F48d-missing-uri", _V, "        if \"uri\" not in auth:\n            raise error.LoginFailed(\"Invalid response, no uri given.\")\n\n", "",
+           expect_rule="check-never-raises/missing-field-hashed"),
     Mutant("short-key-index", _V, "        if len(keyParts) != 3:\n", "        if len(keyParts) < 2:\n", expect_rule="escape/index-in-range"),
     Mutant("checkHash-uses-cnonce-as-nonce", _V,
            "            calcHA2(algo, self.method, uri, qop, None),\n            algo,\n            nonce,\n            nc,\n            cnonce,\n            qop,\n        )\n\n        return expected == response\n\n\nclass DigestCredentialFactory",
